@@ -18,6 +18,7 @@ import (
 	"strings"
 	"sync"
 	"testing"
+	"time"
 )
 
 // Env is the run configuration handed down by the driver (cmd/vp).
@@ -188,6 +189,24 @@ func (c *Collector) CaseEnum(nontrivial bool) {
 		if nontrivial {
 			c.distinctBC++
 		}
+	}
+	c.mu.Unlock()
+}
+
+// Eval adds n executions without touching the distinct count.
+func (c *Collector) Eval(n int64) {
+	c.mu.Lock()
+	if !c.failed {
+		c.Evaluations += n
+	}
+	c.mu.Unlock()
+}
+
+// Distinct adds a non-trivial case key without counting an execution.
+func (c *Collector) Distinct(key uint64) {
+	c.mu.Lock()
+	if !c.failed {
+		c.nontrivial[key] = struct{}{}
 	}
 	c.mu.Unlock()
 }
@@ -484,4 +503,58 @@ func ReplayTest(t *testing.T, fn func(f Failure) error) {
 	if err := fn(f); err != nil {
 		t.Fatalf("replay %s: %v", E.Replay, err)
 	}
+}
+
+// ---------------------------------------------------------------------------
+// Watchdog: hang guard. A property marks the case in flight; if the mark does
+// not change for the given duration the case is saved as a failure and the
+// process exits (the driver then reports it as a violation with that case).
+
+var (
+	wdMu    sync.Mutex
+	wdSeq   uint64
+	wdCheck string
+	wdCase  interface{}
+	wdOnce  sync.Once
+)
+
+func InFlight(check string, cs interface{}) {
+	wdMu.Lock()
+	wdSeq++
+	wdCheck, wdCase = check, cs
+	wdMu.Unlock()
+}
+
+func StartWatchdog(limit time.Duration) {
+	wdOnce.Do(func() {
+		go func() {
+			var last uint64
+			var since time.Time
+			for {
+				time.Sleep(2 * time.Second)
+				wdMu.Lock()
+				seq, check, cs := wdSeq, wdCheck, wdCase
+				wdMu.Unlock()
+				if seq != last || cs == nil {
+					last, since = seq, time.Now()
+					continue
+				}
+				if time.Since(since) > limit {
+					C.markFailed()
+					SaveFailure(check, cs, fmt.Sprintf("hang: the call did not return within %v", limit))
+					C.Flush()
+					fmt.Printf("--- FAIL: watchdog: %s did not return within %v\n", check, limit)
+					os.Exit(1)
+				}
+			}
+		}()
+	})
+}
+
+// Idle tells the watchdog that nothing is in flight.
+func Idle() {
+	wdMu.Lock()
+	wdSeq++
+	wdCase = nil
+	wdMu.Unlock()
 }
